@@ -494,6 +494,17 @@ class Driver(object):
             fn = self.rpc.addProcessGroup if kind == 'addgroup' else self.rpc.removeProcessGroup
             self._call(req, fn, 'g%d' % g)
             self._bind_procs()
+        elif kind == 'reread':
+            # supervisor.reloadConfig() against a configuration file describing the script's programs: reading the
+            # configuration again must not disturb the bookkeeping of live children (monitor-judged scripts only)
+            req = a[1]
+            k.trace.append(('req', req, 'reread', -1, -1))
+            try:
+                self.options.configfile = self._config_file()
+                self.rpc.reloadConfig()
+                k.trace.append(('ans', req, 0))
+            except Exception as e:
+                k.trace.append(('ans', req, getattr(e, 'code', 500)))
         elif kind == 'remote':
             # supervisor.sendRemoteCommEvent(type, data) with any XML-RPC value (monitor-judged scripts only); an
             # exception inside the method stays in the HTTP channel (500), it is not a main-loop failure
@@ -551,6 +562,26 @@ class Driver(object):
                 raise ValueError(what)
         else:
             raise ValueError(kind)
+
+    def _config_file(self):
+        import tempfile
+        if getattr(self, '_cfgdir', None) is None:
+            os.makedirs('/verif/_work', exist_ok=True)
+            self._cfgdir = tempfile.mkdtemp(prefix='lifecfg-', dir='/verif/_work')
+        d = self._cfgdir
+        AR = {0: 'false', 1: 'unexpected', 2: 'true'}
+        L = ['[supervisord]', 'logfile=%s/sd.log' % d, 'pidfile=%s/sd.pid' % d, 'childlogdir=%s' % d, '']
+        for i, c in enumerate(self.script['procs']):
+            L += ['[program:p%d]' % i, 'command=%s' % CMD[c['cmd']], 'priority=%d' % c['priority'],
+                  'autostart=%s' % ('true' if c['autostart'] else 'false'), 'autorestart=%s' % AR[c['autorestart']],
+                  'startsecs=%d' % c['startsecs'], 'startretries=%d' % c['startretries'],
+                  'stopwaitsecs=%d' % c['stopwaitsecs'], '']
+        for g, gc in enumerate(self.script['groups']):
+            L += ['[group:g%d]' % g, 'programs=%s' % ','.join('p%d' % i for i in gc['procs']), 'priority=%d' % gc['priority'], '']
+        path = os.path.join(d, 'supervisord.conf')
+        with open(path, 'w') as f:
+            f.write('\n'.join(L))
+        return path
 
     # ---------------------------------------------------------- restart in process (supervisord.main's loop)
     def _judge_subscriptions(self):
@@ -635,6 +666,9 @@ class Driver(object):
                 self.ended = 'crash'
         finally:
             self.undo()
+            if getattr(self, '_cfgdir', None):
+                import shutil
+                shutil.rmtree(self._cfgdir, ignore_errors=True)
             if getattr(self, '_saved_select', None):
                 self._saved_select[0].select = self._saved_select[1]
             from supervisor import events
